@@ -20,7 +20,7 @@ COLOR = henum.make('Color', {'Red': 'r', 'Green': 'g', 'Blue': 'b'})
 TEXT_ALPHABET = ['a', 'B', ' ', '\n', '\t', '#', ';', '=', ':', '[', ']', '%']
 FLOATS = [0.0, -0.0, 0.005, -0.005, 0.01, 1e-9, 2.675, 1234.565, 1e15 + 0.3, 1e22, -12.3, 123456.78, 0.1 + 0.2, 99999999.99]
 _NOFN = lambda s, i, v: None
-INTS = [0, -1, 1, 7, 10 ** 18, -10 ** 18]
+INTS = [0, -1, 1, 7, 10 ** 18, -10 ** 18, 2 ** 53 + 1, -(2 ** 53) - 1, 12345678901234567891, 99999999999999999]
 
 
 def make_form(kinds):
@@ -271,6 +271,19 @@ def run(tier):
             tot[c] += v
         for s, st, res in out:
             run.violation(f'C14|str|{classify_text(s)}', dict(engine='text', text=s), f'text {s!r} reads back as {res} ({st})')
+    # text that is not in a normalised / ASCII form must come back as it was written
+    T_ = make_form([('s', lambda n: hf.StringField(n, _NOFN))])
+    for s_ in ['Jose\u0301', 'Jos\u00e9', '\u212b', '\u2126 K\u212a', '\u1112\u1161\u11ab', 'na\u00efve caf\u00e9', 'Stra\u00dfe',
+               '\uff21\uff22', 'a\u00a0b', 'x\u200by', '\u00e5\u030a']:
+        nt += 1
+        st, res = roundtrip(T_, {'s': s_})
+        if st == 'unwritable':
+            tot['unwritable'] += 1
+        elif st != 'ok' or res.get('s') != s_.strip():
+            tot['mismatch'] += 1
+            run.violation('C14|str|unicode-altered', dict(engine='text', text=s_), f'text {s_!r} reads back as {res!r} ({st})')
+        else:
+            tot['ok'] += 1
     run.count('text_values', nt)
     run.count('text_ok', tot['ok'])
     run.count('text_unwritable_loud', tot['unwritable'])
